@@ -541,3 +541,199 @@ def const_bool_spec(ty, cfg, n, args, ev, Bv):
 def select_const_spec(ty, cfg, n, args, ev, Bv):
     a, b = args[0], args[1]
     return _lanes_check(ty, cfg, n, ev, [a[i] if Bv[i] else b[i] for i in range(n)], 'select(constant mask, x, y)[i] = b_i ? x[i] : y[i]  (what the run-time select returns for the converted mask)')
+
+
+# ---------------------------------------------------------------- C06 conversions
+from catalogue.configs import TY_BY_NAME as _TYS
+
+
+def _u(tw, x, fw):
+    return x
+
+
+def conv_alts(F, D, x):
+    """accepted lane terms of static_cast<D>(x) for a source lane x of type F (all agree on every representable
+    source value).  Returns [(label, class, term)]"""
+    fw, tw = F.bits, D.bits
+    out = []
+    if F.is_int and D.is_int:
+        if tw == fw:
+            return [('same bits (modular wrap)', 'P', x)]
+        if tw < fw:
+            return [('low bits (modular wrap)', 'P', T.slice_(x, 0, tw))]
+        return [('sign extension' if F.signed else 'zero extension', 'P', (T.sext if F.signed else T.zext)(x, tw))]
+    if F.is_int and D.is_fp:
+        opn = 'sitofp' if F.signed else 'uitofp'
+        out.append((opn, 'P', T.raw_op(opn, tw, x, attrs=fw)))
+        for w in (32, 64):
+            if w > fw:
+                xe = (T.sext if F.signed else T.zext)(x, w)
+                out.append(('%s of the widened value' % opn, 'P', T.raw_op('sitofp', tw, xe, attrs=w)))
+                if not F.signed:
+                    out.append(('uitofp of the widened value', 'P', T.raw_op('uitofp', tw, xe, attrs=w)))
+        if F.bits == 32 and D.bits == 32:
+            out.append(('cvtdq2ps', 'P', T.raw_op('sitofp', 32, x, attrs=32)) if F.signed else None)
+        if not F.signed and fw == 32 and tw == 32:
+            # reviewed emulation (class I): hi = x >> 16, lo = x & 0xffff, both < 2^16 so both int->float conversions and
+            # the product 65536*float(hi) are exact; the single rounding happens in the final addition = RNE(x)
+            hi = T.raw_op('sitofp', 32, T.zext(T.slice_(x, 16, 16), 32), attrs=32)
+            lo = T.raw_op('sitofp', 32, T.zext(T.slice_(x, 0, 16), 32), attrs=32)
+            k = T.const(32, 0x47800000)
+            for mul in (T.raw_op('fmul', 32, hi, k), T.raw_op('fmul', 32, k, hi)):
+                out.append(('65536*float(x>>16) + float(x&0xffff)', 'I', T.raw_op('fadd', 32, mul, lo)))
+                out.append(('65536*float(x>>16) + float(x&0xffff)', 'I', T.raw_op('fadd', 32, lo, mul)))
+        if fw == 64 and tw == 64:
+            # reviewed emulations (class I) of the 64-bit integer -> double conversion below AVX512DQ ("Mysticial" magic
+            # numbers, the reference cited in the source).  Every step before the final addition is exact, so the one
+            # rounding of the final fadd is RNE(x):
+            out.extend(('magic-number int64/uint64 -> double', 'I', t) for t in _i64_to_f64_magic(F, x))
+        return [o for o in out if o]
+    if F.is_fp and D.is_int:
+        opn = 'fptosi' if D.signed else 'fptoui'
+        out.append((opn, 'P', T.raw_op(opn, tw, x, attrs=fw)))
+        if fw == 32 and tw == 32 and D.signed:
+            out.append(('cvttps2dq', 'P', T.raw_op('x86.cvttps2dq', 32, x)))
+        if fw == 32 and tw == 32 and not D.signed:
+            out.append(('vcvttps2udq', 'P', T.raw_op('x86.cvttps2udq', 32, x)))
+        # conversion to a wider / other-signedness integer followed by truncation agrees on every representable value
+        for w in (32, 64):
+            if w >= tw:
+                for o2 in ('fptosi', 'fptoui'):
+                    if (w, o2) != (tw, opn):
+                        out.append(('%s to i%d, low bits' % (o2, w), 'P', T.slice_(T.raw_op(o2, w, x, attrs=fw), 0, tw)))
+                if fw == 32 and w == 32:
+                    out.append(('cvttps2dq, low bits', 'P', T.slice_(T.raw_op('x86.cvttps2dq', 32, x), 0, tw)))
+        if fw == 32 and tw == 32 and not D.signed:
+            # reviewed emulation (class I): x >= 2^31 ? int(x - 2^31) ^ 0x80000000 : int(x)
+            # for 2^31 <= x < 2^32 the subtraction is exact and in int32 range; xor sets bit 31
+            k = T.const(32, 0x4f000000)
+            small = T.raw_op('x86.cvttps2dq', 32, x)
+            for sub in (T.raw_op('fsub', 32, x, k), T.raw_op('fadd', 32, x, T.fneg(k)), T.raw_op('fadd', 32, T.fneg(k), x)):
+                large = T.xor(T.raw_op('x86.cvttps2dq', 32, sub), T.const(32, 0x80000000))
+                out.append(('x >= 2^31 ? int(x - 2^31) ^ 2^31 : int(x)', 'I', T.sel(T.fcmp('oge', x, k), large, small)))
+        return out
+    if F.is_fp and D.is_fp:
+        if fw == tw:
+            return [('same value', 'P', x)]
+        opn = 'fpext' if tw > fw else 'fptrunc'
+        return [(opn, 'P', T.raw_op(opn, tw, x, attrs=fw))]
+    raise AssertionError((F, D))
+
+
+def _i64_to_f64_magic(F, x):
+    c = T.const
+    if not F.signed:
+        # lo = bits(2^52) | x[0:32]      == 2^52 + lo32            (exact, < 2^53)
+        # hi = bits(2^84) | x[32:64]     == 2^84 + hi32 * 2^32     (exact: ulp(2^84) = 2^32)
+        # (hi - (2^84 + 2^52)) + lo      == hi32*2^32 - 2^52 + 2^52 + lo32 ; the subtraction is exact, one rounding
+        lo = T.cat(T.slice_(x, 0, 32), c(32, 0x43300000))
+        hi = T.cat(T.slice_(x, 32, 32), c(32, 0x45300000))
+        k = c(64, 0x4530000000100000)
+        inner = [T.raw_op('fsub', 64, hi, k), T.raw_op('fadd', 64, hi, T.fneg(k))]
+    else:
+        # lo = bits(2^52) | x[0:48]                       == 2^52 + low48(x)                  (exact, < 2^53)
+        # hi = bits(3*2^67) + (sext(x[48:64]) << 32)      == 3*2^67 + (x >> 48) * 2^48        (exact: ulp = 2^16, |x>>48| < 2^15)
+        # (hi - (3*2^67 + 2^52)) + lo                     == (x>>48)*2^48 + low48(x) = x ; one rounding
+        lo = T.cat(T.slice_(x, 0, 48), c(16, 0x4330))
+        hi32 = T.add(T.cat(T.slice_(x, 48, 16), T.rep(T.slice_(x, 63, 1), 16)), c(32, 0x44380000))
+        hi = T.cat(c(32, 0), hi32)
+        k = c(64, 0x4438001000000000)
+        inner = [T.raw_op('fsub', 64, hi, k), T.raw_op('fadd', 64, hi, T.fneg(k))]
+    return [T.raw_op('fadd', 64, i_, lo) for i_ in inner]
+
+
+def _conv_lanes(F, D, srcs, gots, label):
+    cls = 'P'
+    for i, (x, got) in enumerate(zip(srcs, gots)):
+        hit = None
+        alts = conv_alts(F, D, x)
+        cg = T.canon(got)
+        for (lab, k, want) in alts:
+            if T.canon(want) == cg:
+                hit = (lab, k)
+                break
+        if hit is None:
+            return False, label, 'P', 'lane %d is %s, expected static_cast<%s>(lane %d) = %s' % (i, T.fmt(got, 5)[:300], D.c, i, T.fmt(alts[0][2], 4)[:160])
+        if hit[1] == 'I':
+            cls = 'I'
+    return True, label, cls, ''
+
+
+def _ret_lanes(ev, n, W):
+    ret = ev.ret
+    if ret is None or isinstance(ret, (lanes.Ptr, dict)):
+        raise lanes.Unsupported('no register result')
+    if T.width(ret) != n * W:
+        raise lanes.Unsupported('result register has %d bits, expected %d' % (T.width(ret), n * W))
+    return [T.slice_(ret, i * W, W) for i in range(n)]
+
+
+def cast_spec(ty, cfg, n, args, ev, To):
+    D = _TYS[To]
+    label = 'lane i = static_cast<%s>(lane i of the %s batch)' % (D.c, ty.c)
+    return _conv_lanes(ty, D, args[0], _ret_lanes(ev, n, D.bits), label)
+
+
+def to_int_spec(ty, cfg, n, args, ev):
+    D = _TYS['i32' if ty.bits == 32 else 'i64']
+    return _conv_lanes(ty, D, args[0], _ret_lanes(ev, n, D.bits), 'to_int: lane i = static_cast<%s>(lane i)' % D.c)
+
+
+def bitwise_cast_spec(ty, cfg, n, args, ev, To):
+    label = 'bitwise_cast: the result register holds exactly the source register\'s bytes'
+    ret = ev.ret
+    src = T.cat(*args[0])
+    if ret is None or isinstance(ret, (lanes.Ptr, dict)):
+        return False, label, 'P', 'no register result'
+    if ret == src:
+        return True, label, 'P', ''
+    for i in range(cfg.bits // 8):
+        g, w_ = T.slice_(ret, 8 * i, 8), T.slice_(src, 8 * i, 8)
+        if g != w_:
+            return False, label, 'P', 'byte %d of the result is %s, the source byte is %s' % (i, T.fmt(g, 3)[:160], T.fmt(w_, 3))
+    return False, label, 'P', 'width mismatch'
+
+
+def load_as_spec(aligned):
+    def f(ty, cfg, n, args, ev, From):
+        F = _TYS[From]
+        total = n * F.bits // 8
+        label = 'load_as<%s>(%s const*): reads exactly [0,%d) bytes, lane i = static_cast<%s>(mem[i])' % (ty.c, F.c, total, ty.c)
+        if ev.writes or ev.var_access:
+            return False, label, 'P', 'memory written / indexed access in a load'
+        e = _footprint(ev.reads, 'arg:p', total, 'read')
+        if e:
+            return False, label, 'P', e
+        e = _align_ok(ev.reads, cfg.bits // 8 if aligned else F.bits // 8, 'read')
+        if e:
+            return False, label, 'P', e
+        srcs = [T.atom_bv('p', i, F.bits) for i in range(n)]
+        return _conv_lanes(F, ty, srcs, _ret_lanes(ev, n, ty.bits), label)
+    return f
+
+
+def store_as_spec(aligned):
+    def f(ty, cfg, n, args, ev, To):
+        D = _TYS[To]
+        total = n * D.bits // 8
+        label = 'store_as(%s*, batch<%s>): writes exactly [0,%d) bytes, mem[i] = static_cast<%s>(lane i)' % (D.c, ty.c, total, D.c)
+        if ev.reads or ev.var_access:
+            return False, label, 'P', 'the destination (or other argument memory) is read'
+        e = _footprint(ev.writes, 'arg:o', total, 'written')
+        if e:
+            return False, label, 'P', e
+        e = _align_ok(ev.writes, cfg.bits // 8 if aligned else D.bits // 8, 'write')
+        if e:
+            return False, label, 'P', e
+        mem = ev.mem.get('arg:o', {})
+        gots = [T.cat(*[mem[i * D.bits // 8 + k] for k in range(D.bits // 8)]) for i in range(n)]
+        return _conv_lanes(ty, D, args[0], gots, label)
+    return f
+
+
+def broadcast_as_spec(ty, cfg, n, args, ev, To):
+    D = _TYS[To]
+    nn = cfg.bits // D.bits
+    s = args[0][0]
+    label = 'broadcast_as<%s>(%s v): every lane = static_cast<%s>(v)' % (D.c, ty.c, D.c)
+    return _conv_lanes(ty, D, [s] * nn, _ret_lanes(ev, nn, D.bits), label)
